@@ -21,6 +21,10 @@ Definition bltb (a b : bytes) : bool := match bcmp a b with Lt => true | _ => fa
 (* sort.insertionSort as used by sort.Sort for n <= 12:
      for i := a+1; i < b; i++ { for j := i; j > a && less(j, j-1); j-- { swap(j, j-1) } }
    [rp] is the already sorted prefix, reversed (head = element j-1). *)
+(* linear-time list reversal (List.rev is quadratic); KeySortProofs.frev_rev: frev l = rev l *)
+Definition frev {A : Type} (l : list A) : list A := rev_append l [].
+Arguments frev : simpl never.
+
 Section Sort.
   Context {A : Type} (less : A -> A -> bool).
   Fixpoint ins_rev (x : A) (rp : list A) : list A :=
@@ -29,7 +33,7 @@ Section Sort.
     | y :: rp' => if less x y then y :: ins_rev x rp' else x :: rp
     end.
   Definition isort_rev (l : list A) : list A := fold_left (fun rp x => ins_rev x rp) l [].
-  Definition go_isort (l : list A) : list A := rev (isort_rev l).
+  Definition go_isort (l : list A) : list A := frev (isort_rev l).
 End Sort.
 
 (* slices.Sort on []string (any correct sort gives this result: equal strings are identical) *)
@@ -114,26 +118,28 @@ Definition frame := (option bytes * pbval)%type.
 
 Definition sort_fields (fs : list (bytes * pbval)) : list (bytes * pbval) := go_isort kless fs.
 
-Fixpoint pb_walk (fuel : nat) (stack : list frame) (acc : bytes) : option bytes :=
+(* [racc] holds the chunks appended to the builder so far, most recent first (the builder's
+   buffer is their concatenation in reverse order) *)
+Fixpoint pb_walk (fuel : nat) (stack : list frame) (racc : list bytes) : option bytes :=
   match stack with
-  | [] => Some acc
+  | [] => Some (concat (frev racc))
   | (k, v) :: st =>
       match fuel with
       | O => None
       | S f =>
-          let acc1 := acc ++ match k with Some s => enc_string s | None => [] end in
+          let acc1 := match k with Some s => enc_string s | None => [] end :: racc in
           match v with
-          | PNull => pb_walk f st (acc1 ++ enc_null)
-          | PNum b => pb_walk f st (acc1 ++ enc_u64 b)
-          | PStr s => pb_walk f st (acc1 ++ enc_string s)
-          | PBool b => pb_walk f st (acc1 ++ enc_bool b)
-          | PUnset => pb_walk f st (acc1 ++ enc_unset)
+          | PNull => pb_walk f st (enc_null :: acc1)
+          | PNum b => pb_walk f st (enc_u64 b :: acc1)
+          | PStr s => pb_walk f st (enc_string s :: acc1)
+          | PBool b => pb_walk f st (enc_bool b :: acc1)
+          | PUnset => pb_walk f st (enc_unset :: acc1)
           | PList l =>
-              pb_walk f (map (fun x => (None, x)) l ++ st) (acc1 ++ enc_array_hdr (length l))
+              pb_walk f (map (fun x => (None, x)) l ++ st) (enc_array_hdr (length l) :: acc1)
           | PStruct fs =>
               let sf := sort_fields fs in
               pb_walk f (map (fun kv => (Some (fst kv), snd kv)) sf ++ st)
-                      (acc1 ++ enc_map_hdr (length sf))
+                      (enc_map_hdr (length sf) :: acc1)
           end
       end
   end.
